@@ -24,7 +24,9 @@ type Base struct {
 // EditKinds are the device/spec edit shapes combined into bases.
 var EditKinds = []string{"env", "dnMin", "dnFull", "mountMin", "mountFull",
 	"hook-prestart", "hook-createRuntime", "hook-createContainer", "hook-startContainer", "hook-poststart", "hook-poststop",
-	"rdt", "gids", "all"}
+	"rdt", "gids", "all",
+	// features in their least conspicuous spellings (they are features all the same: the version rules apply)
+	"gidsZero", "rdtFlagOnly"}
 
 func hook(stage string, full bool) M {
 	h := M{"hookName": stage, "path": "/usr/bin/hook"}
@@ -60,6 +62,10 @@ func Edits(kind, tag string) M {
 		return M{"intelRdt": M{"closID": "clos" + tag, "l3CacheSchema": "L3:0=f", "memBwSchema": "MB:0=50", "enableCMT": true, "enableMBM": false}}
 	case kind == "gids":
 		return M{"additionalGids": L{int64(5), int64(4294967295)}}
+	case kind == "gidsZero":
+		return M{"additionalGids": L{int64(0), int64(0)}}
+	case kind == "rdtFlagOnly":
+		return M{"intelRdt": M{"enableMBM": true}}
 	case kind == "all":
 		e := M{}
 		for _, k := range []string{"env", "dnFull", "mountFull", "rdt", "gids"} {
